@@ -51,7 +51,7 @@ PARTIAL = [
 ]
 ASSUMPTIONS = [
     'IsQuantileOf(percent_point, cdf) for every fitted non-constant univariate — validated each run on a grid '
-    '(assume:quantile-pair: percent_point non-decreasing, cdf(percent_point(q)) = q within 1e-6)',
+    '(assume:quantile-pair: percent_point non-decreasing; cdf(Q(q) - 4ulp) <= q <= cdf(Q(q) + 4ulp) within 1e-6)',
     'IsStdNormalCDF for scipy.stats.norm.cdf — proved for Mathlib\'s standard normal cdf (Real/PITMeasure.lean); '
     'scipy\'s ndtr is validated strictly increasing with values in (0,1) on the recorded draws',
     'MvnShape: np.random.multivariate_normal(mean, cov, size=n) returns an (n, d) float array — checked on every '
@@ -430,12 +430,22 @@ def schema_problems(model, case, out, n):
     return probs
 
 
+def ulp_nbhd(x, k=4):
+    """x -/+ k units in the last place."""
+    x = np.asarray(x, dtype=float)
+    h = k * np.spacing(np.abs(x))
+    return x - h, x + h
+
+
 def ks_distance(sample, cdf):
+    """sup |F_n - F| read at binary64 resolution: a sampled value is only known up to a few ulps (a fitted law with a
+    huge density at its end point — LogLaplace with c < 1 — maps an interval of probabilities to ONE float)."""
     x = np.sort(np.asarray(sample, dtype=float))
     n = len(x)
-    F = np.asarray(cdf(x), dtype=float)
+    lo, hi = ulp_nbhd(x)
+    Flo, Fhi = np.asarray(cdf(lo), dtype=float), np.asarray(cdf(hi), dtype=float)
     i = np.arange(1, n + 1)
-    return float(max(np.max(i / n - F), np.max(F - (i - 1) / n)))
+    return float(max(np.max(i / n - Fhi), np.max(Flo - (i - 1) / n), 0.0))
 
 
 def dkw_eps(n, delta=DELTA):
@@ -483,7 +493,7 @@ def run(ctx, lean):
     quick = ctx.tier == 'quick'
     rng = ctx.rng('tie')
     nr = ctx.nprng('tie')
-    ntab = 80 * ctx.scale
+    ntab = 60 * ctx.scale
     for t in range(ntab):
         case = make_case(rng, nr, quick)
         ns = [1, rng.randint(2, 200), rng.choice([2, 3, 5, 10, 50, 100, 200])]
@@ -649,17 +659,20 @@ def validate_assumptions(ctx, case, unis, status, note):
                     note('assume:quantile-pair', {'column': j, 'univariate': type(u).__name__,
                                                   'what': 'percent_point decreases', 'case': brief(case)})
                 continue
-            c = np.asarray(u.cdf(p), dtype=float)
+            lo, hi = ulp_nbhd(p)
+            clo, chi = np.asarray(u.cdf(lo), dtype=float), np.asarray(u.cdf(hi), dtype=float)
         except Exception as e:  # noqa
             note('assume:quantile-pair', {'column': j, 'raised': repr(e)[:200], 'case': brief(case)})
             continue
         ctx.count('quantile-pair-validated')
-        ok = bool(mono and np.all(np.isfinite(c)) and np.max(np.abs(c - q)) <= 1e-6)
+        # Q(q) <= x <-> q <= F(x), read at binary64 resolution: F(Q(q) - 4ulp) <= q <= F(Q(q) + 4ulp), up to 1e-6
+        viol = np.maximum(clo - q, q - chi)
+        ok = bool(mono and np.all(np.isfinite(clo)) and np.all(np.isfinite(chi)) and np.max(viol) <= 1e-6)
         if not ok:
-            i = int(np.argmax(np.abs(c - q))) if np.all(np.isfinite(c)) else 0
+            i = int(np.argmax(viol)) if np.all(np.isfinite(viol)) else 0
             note('assume:quantile-pair', {'column': j, 'univariate': type(u).__name__, 'q': float(q[i]),
-                                          'ppf': float(p[i]), 'cdf_of_ppf': float(c[i]), 'monotone': mono,
-                                          'case': brief(case)})
+                                          'ppf': float(p[i]), 'cdf_below': float(clo[i]), 'cdf_above': float(chi[i]),
+                                          'monotone': mono, 'case': brief(case)})
 
 
 def kendall_counter(ctx, lean, note):
@@ -707,7 +720,7 @@ def search(ctx, deep):
              'rank_preservation': 0, 'recovery_experiments': 0, 'failures': 0, 'deep': deep, 'max_ks': 0.0,
              'max_tau_dev': 0.0, 'n_big': N_BIG, 'dkw_eps': dkw_eps(N_BIG), 'tau_eps': hoeffding_tau_eps(N_BIG)}
     for t in range(ntab):
-        case = make_case(rng, nr, quick=True, allow_kde=(t % 3 == 0))
+        case = make_case(rng, nr, quick=True, allow_kde=(t % 3 == 0 if deep else t == 0))
         oracle_case(ctx, case, stats, schema_ns=[1, rng.randint(2, 200)], big=True)
     if deep:
         for t in range(3 if quick else 8):
